@@ -66,6 +66,8 @@ pub struct World {
     /// free-form notes for the decoded section of replay files / samples
     pub notes: RefCell<Vec<(String, serde_json::Value)>>,
     pub keep_trace: bool,
+    /// scenario-local switch: generators may use characters that need csv quoting across lines
+    pub wild: Cell<bool>,
 }
 
 pub type W = Rc<World>;
@@ -95,6 +97,7 @@ impl World {
             eio_total: Cell::new(0),
             notes: RefCell::new(Vec::new()),
             keep_trace,
+            wild: Cell::new(false),
         })
     }
 
